@@ -275,6 +275,27 @@ theorem C20_dispatch_qos2_partial (c : C) (store : List Sub) (r : Req) (rest : Q
   rw [(C20_qos2_duplicates_suppressed _ hc' hin' p hq2 dups hd).1, deliveriesTo_exchange]
   exact (C20_dispatch_partial c store r rest codes p hc hti hq hid hh hlen hgood hfresh hgp hn (by omega) hno).1
 
+/-- The exclusion in its static form: if the granted filters of the request are
+pairwise non-overlapping (`nonOverlapping`, a decidable check on the filters
+alone: two filters overlap when, level by level, they can agree on some name;
+`overlap_sound`), the conclusion of `C20_dispatch_partial` holds for *every*
+message. -/
+theorem C20_dispatch_nonoverlapping (c : C) (store : List Sub) (r : Req) (rest : Queue) (codes : List Nat)
+    (hc : c.connected = true) (hti : TI c.topics store) (hq : c.suback = r :: rest)
+    (hid : ∀ e ∈ rest, e.id ≠ r.id) (hh : ∀ e, rest.head? = some e → terminal e.state = false)
+    (hlen : r.topics.length = codes.length) (hgood : ∀ t ∈ r.topics, good t.1 = true)
+    (hfresh : ∀ e ∈ store, e.sub ≠ r.cb)
+    (hno : nonOverlapping (grantedOf (r.topics.zip codes)) = true)
+    (p : Pub) (hgp : good p.topic = true) (hn : validName p.topic = true) (hq2 : p.qos ≤ 2) :
+    (deliveriesTo r.cb (onPublish (step c (.peer (.suback r.id codes))).1 p)).length =
+      (if (grantedOf (r.topics.zip codes)).any (fun f => topicMatches f p.topic) then 1 else 0) :=
+  (C20_dispatch_partial c store r rest codes p hc hti hq hid hh hlen hgood hfresh hgp hn hq2
+    (nonOverlapping_unique _ hno p.topic)).1
+
+example : nonOverlapping [[97, 47, 43], [98], [99, 47, 35]] = true ∧
+    nonOverlapping [[97, 47, 43], [97, 47, 98]] = false ∧ overlap [97, 47, 35] [97] = true ∧
+    overlap [43, 47, 98] [97, 47, 43] = true ∧ overlap [97, 47, 98] [97, 47, 99] = false := by decide
+
 /-- It is false of the code as it is (finding E9): a request with the filters
 `a/+` and `a/b` registers its callback at two trie nodes; one delivered `a/b`
 invokes it twice. -/
